@@ -170,11 +170,37 @@ Qed.
 (* the frame property needs no hypothesis at all, and holds for failed clones too *)
 Lemma P_frame_graph fuel allow deep g h0 st r :
   graph_clone fuel allow deep g h0 = (st, r) -> forall x, x < next h0 -> cells (hp st) x = cells h0 x.
-Proof. intros H x Hx. apply mono_clone_graph in H. destruct H as [[_ K] _]. apply K, Hx. Qed.
+Proof.
+  intros H x Hx. unfold graph_clone in H. apply (mono_clone_graph allow deep fuel g) in H.
+  destruct H as [[_ K] _]. apply K, Hx.
+Qed.
 Lemma P_frame_model fuel deep m h0 st r :
   model_clone fuel deep m h0 = (st, r) -> forall x, x < next h0 -> cells (hp st) x = cells h0 x.
-Proof. intros H x Hx. apply mono_model_clone_m in H. destruct H as [[_ K] _]. apply K, Hx. Qed.
+Proof.
+  intros H x Hx. unfold model_clone in H. apply (mono_model_clone_m fuel deep m) in H.
+  destruct H as [[_ K] _]. apply K, Hx.
+Qed.
 Lemma P_frame_function fuel deep f h0 st r :
   function_clone fuel deep f h0 = (st, r) -> forall x, x < next h0 -> cells (hp st) x = cells h0 x.
-Proof. intros H x Hx. apply mono_function_clone_m in H. destruct H as [[_ K] _]. apply K, Hx. Qed.
+Proof.
+  intros H x Hx. unfold function_clone in H. apply (mono_function_clone_m fuel deep f) in H.
+  destruct H as [[_ K] _]. apply K, Hx.
+Qed.
 
+
+(* the defect *)
+Lemma P_unsorted_outer_refuted :
+  exists h g fuel g' x,
+    let run := graph_clone fuel true false g h in
+    closed h /\ g < next h /\ snd run = Ok g' /\
+    reach (cells (hp (fst run))) (next h) g' x /\ x < next h /\
+    (exists v, cells h x = Some (CValue v)) /\ In x (owned (cells h) 2 g) /\
+    In x (passed (fst run)) /\ assoc x (vmap (fst run)) <> None /\
+    snd (graph_clone fuel false false g h) = Raise RuntimeError.
+Proof.
+  exists wit_heap, 19, 3%nat, 38, 6. cbv zeta. fold wit_run.
+  split; [exact wit_closed|]. split; [reflexivity|]. split; [exact wit_result|].
+  split; [exact wit_reach|]. split; [reflexivity|]. split; [exact wit_is_value|].
+  split; [exact wit_owned|]. destruct wit_use_before_def as [K1 K2]. split; [exact K1|].
+  split; [rewrite K2; discriminate|exact wit_rejected_without_flag].
+Qed.
